@@ -127,6 +127,10 @@ def run_case(case, ctx):
         from ctparse.time.corpus import corpus
         for target, ts, tests in corpus[::3]:
             probes += tests[:1]
+        # every word that occurs in any pattern text, alone and inside other words (look-arounds and \b only show there)
+        import re as _re
+        words = sorted(set(w.lower() for txt in R._regex_str.values() for w in _re.findall(r"[A-Za-zäöüß]{2,}", txt)))
+        probes += words + ["we met 3 days %s in chic%s" % (w, w) for w in words] + ["x%sx %s" % (w, w) for w in words[::3]]
         for rid, rr in R._regex.items():
             key = "R%d" % rid
             for t in probes:
